@@ -239,8 +239,8 @@ func (i Int64) ExponentiateInt64(other Int64) Int64 {
 		return 1
 	}
 	result := i
-	var j Int64
-	for j = 2; j <= other; j++ {
+	// count down: an upward counter of the same type wraps around when `other` is the type's maximum
+	for j := other; j >= 2; j-- {
 		result *= i
 	}
 	return result
